@@ -70,6 +70,12 @@ def generate(streams, tier):
             f["values"] = [rb.randint(1, 40) / 8.0 for _ in range(size)]
         world = {"kind": "mn", "n": 5, "card": card, "edges": [[0, 1], [0, 2], [1, 2], [0, 3], [1, 3], [0, 4]], "factors": shuffled(rb, factors),
                  "labels": labels, "states": [None] * 5, "flags": {"style": "bigcard", "density": 0, "label_mode": lm, "state_named": False, "ring": False}}
+    rm = streams.s("mixed_labels")
+    if rm.random() < 0.1 and world.get("flags", {}).get("style") != "bigcard":
+        # variable names of several types in one model (numbers next to strings next to pairs): hashable, not mutually orderable
+        pool = [1, 2, 7, 0, "a", "b", "node", ["t", 0], ["t", 1], 3.5, -4]
+        world["labels"] = rm.sample(pool, world["n"])
+        world["flags"]["label_mode"] = "mixedtype"
     ri = streams.s("insertion")
     cfg = {"kind": kind}
     if kind == "bn":
